@@ -17,6 +17,8 @@ hand-written part: shims, spec functions, lemmas, impl headers).
     //@  loop <k>                         followed by invariant / decreases / ensures lines for loop ordinal k
     //@  before "<anchor>" [#n]           followed by proof-only lines inserted before the n-th occurrence of anchor
     //@  keep_dassert | drop_dassert <k>  (default keep) drop the k-th debug_assert with a reason recorded
+    //@  cut_readonly ...                    as cut, and the dropped text must be read-only on `self` (checked syntactically: no assignment
+                                          to self.*, no `&mut self.*`, only a fixed list of `&self` std methods) — exit 2 otherwise
     //@  cut "<from>" .. "<until>" => "<r>" R8: delete the body text from the unique anchor <from> (inclusive) up to the
                                           unique anchor <until> (exclusive) and put <r> there; lines + sha256 of the cut recorded
     //@end
@@ -42,6 +44,41 @@ LOG_MACROS = {'trace', 'debug', 'info', 'warn', 'error', 'incr', 'count', 'gauge
               'time', 'log_access', 'info_access', 'error_access', 'println', 'eprintln', 'log',
               'fixme', 'record_backend_metrics', 'log_context'}
 DASSERT_MACROS = {'debug_assert', 'debug_assert_eq', 'debug_assert_ne', 'assert', 'assert_eq', 'assert_ne'}
+
+
+_RO_METHODS = {'clone', 'as_ref', 'is_empty', 'is_some', 'is_none', 'len', 'get', 'iter', 'contains_key', 'to_owned',
+               'borrow', 'as_deref', 'as_str', 'as_slice', 'keys', 'values', 'first', 'last'}
+
+
+def _not_readonly_on_self(region: str) -> str | None:
+    """cut_readonly: the dropped text may mention `self` only in read-only forms — a field path that is read, borrowed
+    immutably, or receives one of a fixed list of `&self` std methods. Anything else (assignment, `&mut self...`, any other
+    method call on self or on a field path of self) is refused, so a cut region replaced by a shim taking `&self.x`
+    cannot hide a write to the listener."""
+    code = re.sub(r'//[^\n]*', '', region)
+    for m in re.finditer(r'\bself\b', code):
+        pre = code[max(0, m.start() - 8):m.start()]
+        if re.search(r'&\s*mut\s*$', pre):
+            return f'`&mut self...` at offset {m.start()}'
+        rest = code[m.end():]
+        mm = re.match(r'((?:\s*\.\s*\w+)*)\s*(.?)(.?)', rest, re.S)
+        chain = [x.strip() for x in mm.group(1).split('.') if x.strip()]
+        nxt, nxt2 = mm.group(2), mm.group(3)
+        if nxt == '(':
+            if not chain or chain[-1] not in _RO_METHODS:
+                return f'call `self.{".".join(chain)}(` is not in the read-only method list'
+        elif nxt == '=' and nxt2 != '=':
+            return f'assignment to `self.{".".join(chain)}`'
+        elif nxt in '+-*/|&^%' and nxt2 == '=':
+            return f'compound assignment to `self.{".".join(chain)}`'
+    return None
+
+
+def _crate_path_macro(ct, i) -> bool:
+    """ct[i] is an identifier preceded by the tokens `crate` `:` `:` (or a single `::` token)."""
+    if i >= 3 and ct[i - 1].text == ':' and ct[i - 2].text == ':' and ct[i - 3].text == 'crate':
+        return ct[i].text in LOG_MACROS
+    return False
 
 
 class LostAnchor(Exception):
@@ -80,6 +117,7 @@ class FnDirective:
     before_kind: list[str] = field(default_factory=list)
     drop_dassert: dict[int, str] = field(default_factory=dict)
     cuts: list[tuple[str, str, str, int]] = field(default_factory=list)
+    cut_readonly: set = field(default_factory=set)
     external_body: bool = False
     no_vacuity: bool = False
 
@@ -304,11 +342,13 @@ def parse_template(path: str):
                         raise LostAnchor(f'template line {tl2}: {key} "<anchor>" [#n]')
                     section = 'before'
                     cur_before = (_unesc(m.group(1)), int(m.group(2) or 0), 'exec' if key == 'exec_before' else 'proof')
-                elif key == 'cut':
+                elif key in ('cut', 'cut_readonly'):
                     m = re.match(r'^"((?:[^"\\]|\\.)*)"\s*\.\.\s*"((?:[^"\\]|\\.)*)"\s*=>\s*"((?:[^"\\]|\\.)*)"\s*$', arg.strip())
                     if not m:
                         raise LostAnchor(f'template line {tl2}: cut "<from>" .. "<until>" => "<replacement>"')
                     d.cuts.append((_unesc(m.group(1)), _unesc(m.group(2)), _unesc(m.group(3)), tl2))
+                    if key == 'cut_readonly':
+                        d.cut_readonly.add(tl2)
                 elif key == 'drop_dassert':
                     w2 = arg.split(None, 1)
                     d.drop_dassert[int(w2[0])] = w2[1] if len(w2) > 1 else 'unsupported construct'
@@ -496,18 +536,25 @@ def rewrite_body(rf: RepoFile, it: Item, d: FnDirective, rules: dict, info: FnIn
         t = ct[i]
         if t.kind == 'ident' and ct[i + 1].kind == 'punct' and ct[i + 1].text == '!' \
                 and ct[i + 2].kind == 'punct' and ct[i + 2].text in '([{' \
-                and not (i > 0 and ct[i - 1].kind == 'punct' and ct[i - 1].text in '.:'):
+                and not (i > 0 and ct[i - 1].kind == 'punct' and ct[i - 1].text in '.:'
+                         and not _crate_path_macro(ct, i)):
             name = t.text
             close = match_close(ct, i + 2)
+            if name in LOG_MACROS and _crate_path_macro(ct, i):
+                # `crate::incr!(..)`: the same metrics macro named by its crate path; dropped like the bare form
+                t = ct[i - 3]
+                i0 = i - 3
+            else:
+                i0 = i
             if name in LOG_MACROS:
                 argtext = rf.src[ct[i + 2].end:ct[close].start]
                 if re.search(r'&\s*mut\b|[+\-*/|&^]=|<<=|>>=', argtext):
                     raise LostAnchor(f'{rf.rel}:{t.line}: R2 refuses to drop {name}! whose arguments may have side effects')
                 end = ct[close].end
-                prev = ct[i - 1] if i > 0 else None
+                prev = ct[i0 - 1] if i0 > 0 else None
                 nxt = ct[close + 1] if close + 1 < len(ct) else None
                 nl = '\n' * rf.src.count('\n', t.start, end)
-                if prev is not None and prev.kind == 'punct' and prev.text == '>' and ct[i - 2].text == '=':
+                if prev is not None and prev.kind == 'punct' and prev.text == '>' and ct[i0 - 2].text == '=':
                     edits.append(Edit(t.start - base, end - base, '{}' + nl, None))
                 elif prev is not None and prev.kind == 'punct' and prev.text in '{};':
                     if nxt is not None and nxt.kind == 'punct' and nxt.text == ';':
@@ -687,6 +734,10 @@ def rewrite_body(rf: RepoFile, it: Item, d: FnDirective, rules: dict, info: FnIn
     # R8 region cuts
     for (frm, until, repl, tl), (lo, hi) in zip(d.cuts, cut_ranges):
         dropped = text[lo:hi]
+        if tl in d.cut_readonly:
+            why = _not_readonly_on_self(dropped)
+            if why:
+                raise LostAnchor(f'{rf.rel}: {d.selector}: cut_readonly region starting at {frm!r} is not read-only on self: {why}')
         nl = '\n' * max(0, dropped.count('\n') - repl.count('\n'))
         subst_ranges.append((lo, hi))
         edits.append(Edit(lo, hi, repl + nl, None))
